@@ -189,13 +189,16 @@ class Ctx:
                 self._cache[relpath] = strip_comments(f.read())
         return self._cache[relpath]
 
-    def func(self, relpath, locator, rules=(), generic=True, name=None, skip_init_list=False):
+    def func(self, relpath, locator, rules=(), generic=True, name=None, skip_init_list=False, spans_scope=False):
         """Cut the function whose header matches `locator` (must match once)."""
         text = self.read(relpath)
         ms = list(re.finditer(locator, text, flags=re.M | re.S))
         if len(ms) != 1:
             raise ExtractionDrift("locator %r matched %d times in %s" % (locator, len(ms), relpath))
         m = ms[0]
+        if "{" in m.group(0) and not skip_init_list and not spans_scope:      # spans_scope: the locator deliberately starts at an enclosing `struct X {`
+            # a locator that consumes the function's opening brace would make the "body" an inner block (vacuity hole found in c11_calc_safety_distance)
+            raise ExtractionDrift("locator %r consumes a '{' in %s: the function body would be cut short" % (locator, relpath))
         i = text.find("{", m.end())
         semi = text.find(";", m.end())
         if i < 0 or (0 <= semi < i and not skip_init_list):
